@@ -60,7 +60,11 @@ def rand_array(rng, sr, sym, ndim=None, chargemaps=None, duals=None, charge=None
     secs = refsym.valid_sectors(sym, [sorted(cm) for cm in chargemaps], duals, charge)
     if keep is None:
         keep = rng.choice([1.0, 1.0, 1.0, 0.8, 0.8, 0.6, 0.6, 0.4, 0.2, 0.0])
-    kept = [s for s in secs if rng.random() < keep]
+    if isinstance(keep, tuple):          # ('drop', n): all valid sectors but n random ones
+        drop = set(rng.sample(range(len(secs)), min(keep[1], max(0, len(secs) - 1)))) if secs else set()
+        kept = [s for i, s in enumerate(secs) if i not in drop]
+    else:
+        kept = [s for s in secs if rng.random() < keep]
     rng.shuffle(kept)
     blocks = {}
     for s in kept:
